@@ -11998,6 +11998,80 @@ let compile_script salt combined env0 exprs = match exprs with
      Some (script_join (app ex (test_blocks salt combined N0 exprs)))
    | None -> None)
 
+(** val is_param : n -> bool **)
+
+let is_param c =
+  (||)
+    ((&&) (N.leb (Npos (XO (XO (XO (XO (XI XH)))))) c)
+      (N.leb c (Npos (XI (XO (XO (XI (XI XH))))))))
+    (N.eqb c (Npos (XI (XI (XO (XI (XI XH)))))))
+
+(** val sgr_tail : n list -> n list option **)
+
+let rec sgr_tail = function
+| [] -> None
+| c :: r ->
+  if is_param c
+  then sgr_tail r
+  else if N.eqb c (Npos (XI (XO (XI (XI (XO (XI XH)))))))
+       then Some r
+       else None
+
+(** val strip_f : nat -> n list -> n list **)
+
+let rec strip_f fuel l =
+  match fuel with
+  | O -> l
+  | S f ->
+    (match l with
+     | [] -> []
+     | a :: t ->
+       (match t with
+        | [] -> a :: []
+        | b :: r ->
+          if (&&) (N.eqb a (Npos (XI (XI (XO (XI XH))))))
+               (N.eqb b (Npos (XI (XI (XO (XI (XI (XO XH))))))))
+          then (match sgr_tail r with
+                | Some r' -> strip_f f r'
+                | None -> a :: (strip_f f t))
+          else a :: (strip_f f t)))
+
+(** val strip_sgr : n list -> n list **)
+
+let strip_sgr l =
+  strip_f (S (length l)) l
+
+(** val sgr_text_f : nat -> n list -> bool **)
+
+let rec sgr_text_f fuel l =
+  match fuel with
+  | O -> false
+  | S f ->
+    (match l with
+     | [] -> true
+     | a :: t ->
+       (match t with
+        | [] ->
+          (||) (N.eqb a (Npos (XO (XI (XO XH)))))
+            ((&&) (N.leb (Npos (XO (XO (XO (XO (XO XH)))))) a)
+              (N.ltb a (Npos (XI (XI (XI (XI (XI (XI XH)))))))))
+        | b :: r ->
+          if (&&) (N.eqb a (Npos (XI (XI (XO (XI XH))))))
+               (N.eqb b (Npos (XI (XI (XO (XI (XI (XO XH))))))))
+          then (match sgr_tail r with
+                | Some r' -> sgr_text_f f r'
+                | None -> false)
+          else (&&)
+                 ((||) (N.eqb a (Npos (XO (XI (XO XH)))))
+                   ((&&) (N.leb (Npos (XO (XO (XO (XO (XO XH)))))) a)
+                     (N.ltb a (Npos (XI (XI (XI (XI (XI (XI XH))))))))))
+                 (sgr_text_f f t)))
+
+(** val sgr_text : n list -> bool **)
+
+let sgr_text l =
+  sgr_text_f (S (length l)) l
+
 (** val make_exp : bool -> bool -> (nat -> bool) -> nat exp **)
 
 let make_exp o m f =
